@@ -236,13 +236,15 @@ class Coefficient:
 
 
 def make_coefficient(g, a, b, amp, leading, const_only=False):
-    kind = str(g.choice(["int", "float", "npfloat", "trig", "poly", "exp"] if not const_only else ["float", "npfloat", "float"]))
+    kind = str(g.choice(["int", "float", "npfloat", "trig", "poly", "exp", "constfun", "trig"] if not const_only else ["float", "npfloat", "float"]))
     sgn = float(g.choice([-1.0, 1.0]))
     if kind == "int":
         v = int(g.choice([-2, -1, 1, 2])) if leading else int(g.choice([-1, 0, 0, 1]))
         return Coefficient(v, lambda x, v=v: np.full(np.shape(x), float(v)), f"int {v}")
-    if kind in ("float", "npfloat"):
+    if kind in ("float", "npfloat", "constfun"):
         v = sgn * float(g.uniform(0.6, 2.0)) if leading else float(g.uniform(-amp, amp))
+        if kind == "constfun":      # a callable that returns a Python scalar whatever the shape of x
+            return Coefficient(lambda x, v=v: v, lambda x, v=v: np.full(np.shape(x), v), f"callable returning the scalar {v:.6g}")
         return Coefficient(np.float64(v) if kind == "npfloat" else v, lambda x, v=v: np.full(np.shape(x), v), f"{kind} {v:.6g}")
     w, p, q = float(g.uniform(0.8, 2.5)), float(g.uniform(0, 6.28)), float(g.uniform(-0.8, 0.8))
     c = g.uniform(-1, 1, 3)
@@ -336,16 +338,23 @@ def scalar_derivative_unsupported(tf):
 
 
 def mark_known(col, tf=None):
-    """Re-label the last failure when it is exactly one of the recorded defects."""
+    """Re-label the last failure when it is exactly one of the recorded defects (at most 3 records are kept per defect)."""
     rec = col.last_failure
     if rec is None:
         return
     detail = str(rec.get("detail") or "")
+    slug = None
     if tf is not None and ("has no attribute 'size'" in detail or "ImmutableDenseNDimArray" in detail) and scalar_derivative_unsupported(tf):
-        rec["case_id"] += ":known-transform-derivative-rejects-scalar-point"
+        slug = ":known-transform-derivative-rejects-scalar-point"
     elif "non-broadcastable output operand" in detail and any(f":{m}:" in rec["case_id"] for m in ("Radau", "BDF")):
         # solve_ivp is told vectorized=True, but the system function cannot take one point with several state columns (Jacobian estimation)
-        rec["case_id"] += ":known-implicit-methods-not-vectorized"
+        slug = ":known-implicit-methods-not-vectorized"
+    if slug is None:
+        return
+    already = sum(1 for f in col.failures if f is not rec and f["case_id"].endswith(slug))
+    rec["case_id"] += slug
+    if already >= 3:        # the same recorded defect again: do not let it use up the collector's 60 failure slots
+        col.failures[:] = [f for f in col.failures if f is not rec]
 
 
 # ----------------------------------------------------------------------------------------------------------------------
@@ -633,20 +642,32 @@ def validation_contracts(col, seed):
 
 
 def rhs_alias_contracts(col, seed):
-    """The right-hand side may be any function of x, e.g. f(x) = x implemented as `lambda x: x` (returns its argument)."""
+    """The right-hand side may be any function of x: `lambda x: x` (returns its argument), a constant written as a Python scalar,
+    an integer array, an array the caller keeps (cache).  q y'' + y = p(x) has the solution p(x) + sin(w (x - a)), w = 1/sqrt(q), for p in {x, c}."""
     g = rng(seed, "rhs-alias")
-    c0, c2 = float(g.uniform(0.3, 1.0)), float(g.uniform(0.8, 1.5))
-    # c2 y'' + c0 y = c0 x  has the solution y = x + A sin(w (x - a)),  w = sqrt(c0/c2); take boundary data of y = x + sin(w(x-a))
-    w = math.sqrt(c0 / c2)
+    q = float(g.uniform(0.8, 2.5))
+    cst = float(g.uniform(0.5, 2.0))
+    w = 1.0 / math.sqrt(q)
+    cache = {}
+
+    def cached(t):
+        key = np.asarray(t).shape
+        if key not in cache:
+            cache[key] = np.full(key, cst)
+        return cache[key]
+
+    kinds = [("returns-argument", lambda t: t, lambda t: t), ("fresh-array", lambda t: t * 1.0, lambda t: t),
+             ("python-scalar", lambda t: cst, lambda t: cst + 0 * t), ("integer-array", lambda t: np.ones(np.shape(t), dtype=int), lambda t: 1.0 + 0 * t),
+             ("cached-array", cached, lambda t: cst + 0 * t)]
     for label, tf, a in (("direct", None, 0.0), ("IdentityRTransform", rt.IdentityRTransform(), 0.2), ("ExpRTransform", rt.ExpRTransform(0.1, 10.0, b=3.0), 0.2)):
         b = a + 1.0
-        exact = lambda t: t + np.sin(w * (t - a))
-        bd = [(0, 0, float(exact(a))), (1, 0, float(exact(b)))]
-        for how, fx in (("returns-argument", lambda t: t), ("fresh-array", lambda t: t * 1.0)):
-            cid = f"solve_ode_bvp:rhs-{how}:{label}"
-            coeffs = [1.0, 0.0, c2 / c0]
+        for how, fx, part in kinds:
+            exact = lambda t, part=part: part(t) + np.sin(w * (t - a))
+            dexact = lambda t, part=part, how=how: (1.0 if how in ("returns-argument", "fresh-array") else 0.0) + w * np.cos(w * (t - a))
+            coeffs = [1.0, 0.0, q]
 
-            def chk(fx=fx, tf=tf, a=a, b=b, bd=bd, coeffs=coeffs, exact=exact):
+            def chk_bvp(fx=fx, tf=tf, a=a, b=b, coeffs=coeffs, exact=exact):
+                bd = [(0, 0, float(exact(a))), (1, 0, float(exact(b)))]
                 x = np.linspace(a, b, 12)
                 keep = x.copy()
                 kw = {"tol": 1e-7, "initial_guess_y": np.zeros((2, 12))}
@@ -657,8 +678,28 @@ def rhs_alias_contracts(col, seed):
                 out = np.asarray(sol(xs), dtype=float)
                 got = out if out.ndim == 1 else out[0]
                 err = float(np.max(np.abs(got - exact(xs))))
-                return err <= 1e-4, f"y differs from the exact solution x + sin(w(x-a)) by {err:.3g}"
-            col.check(cid, chk, inputs={"kind": "rhs-alias", "seed": int(seed), "c0": c0, "c2": c2, "transform": label, "rhs": how})
+                return err <= 1e-4, f"y differs from the exact solution p(x) + sin(w(x-a)) by {err:.3g}"
+
+            def chk_ivp(fx=fx, tf=tf, a=a, b=b, coeffs=coeffs, exact=exact, dexact=dexact):
+                y0 = [float(exact(a)), float(dexact(a))]
+                sol = solve_ode_ivp((a, b), fx, coeffs, y0, tf) if tf is not None else solve_ode_ivp((a, b), fx, coeffs, y0)
+                xs = np.linspace(a, b, 9)
+                out = np.asarray(sol(xs), dtype=float)
+                err = max(float(np.max(np.abs(out[0] - exact(xs)))), float(np.max(np.abs(out[1] - dexact(xs)))))
+                return err <= 1e-4, f"y or y' differs from the exact solution p(x) + sin(w(x-a)) by {err:.3g}"
+            for solver, chk in (("solve_ode_bvp", chk_bvp), ("solve_ode_ivp", chk_ivp)):
+                cache.clear()
+                ok = col.check(f"{solver}:rhs-{how}:{label}", chk, inputs={"kind": "rhs-alias", "seed": int(seed), "q": q, "c": cst, "transform": label, "rhs": how})
+                if ok and how == "cached-array" and any(not np.all(v == cst) for v in cache.values()):
+                    col.check(f"{solver}:rhs-{how}:{label}", lambda: (False, "the array returned by f (kept by the caller) was modified"),
+                              inputs={"kind": "rhs-alias", "seed": int(seed), "transform": label, "rhs": how})
+                if not ok and how == "python-scalar" and "non-broadcastable output operand with shape ()" in str(col.last_failure.get("detail")):
+                    # signature: f returning a Python scalar is converted to a 0-d array which is then updated in place
+                    rec = col.last_failure
+                    already = sum(1 for f in col.failures if f is not rec and f["case_id"].endswith(":known-scalar-rhs-rejected"))
+                    rec["case_id"] += ":known-scalar-rhs-rejected"
+                    if already >= 3:
+                        col.failures[:] = [f for f in col.failures if f is not rec]
 
 
 # ----------------------------------------------------------------------------------------------------------------------
@@ -937,6 +978,8 @@ def run(tier, seed, *rest):
     validation_contracts(col, seed)
     rhs_alias_contracts(col, seed)
     public_family(col, seed, tier)
+    if tier != "quick":
+        public_family(col, seed + 7919, tier)        # a second, independent draw of every problem and transform parameter
     return col.result()
 
 
@@ -948,19 +991,25 @@ def _first_failure(col, prefer=None):
     return order[0]
 
 
+HELPER_NAMES = ("_transform_ode_from_derivs", "_transform_ode_from_rtransform", "_transform_and_rearrange_to_explicit_ode",
+                "_rearrange_to_explicit_ode", "_evaluate_coeffs_on_points", "_derivative_transformation_matrix",
+                "_transform_solution_to_original_domain")
+
+
 def replay(req):
+    """Search natively for an input violating the named obligation: helpers first, then the public family (IVP and/or BVP)."""
     name = str(req.get("obligation") or "")
     seed = int(req.get("seed", 0) or 0)
     col = Collector("replay")
-    helper_contracts(col, seed, reps=2)
+    prefer = next((h for h in HELPER_NAMES + ("solve_ode_ivp", "solve_ode_bvp") if h in name), None)
+    helper_contracts(col, seed, reps=3)
     validation_contracts(col, seed)
-    low = name.lower()
-    only = "bvp" if ("bvp" in low or "bc" in low.split("/")) else ("ivp" if "ivp" in low else None)
-    if not [f for f in col.failures if ":known-" not in f["case_id"]]:
+    new = lambda: [f for f in col.failures if ":known-" not in f["case_id"]]
+    if not new() and (prefer is None or not prefer.startswith("_")):
+        low = name.lower()
+        only = "bvp" if ("bvp" in low or "/bc" in low) else ("ivp" if "ivp" in low else None)
+        rhs_alias_contracts(col, seed)
         public_family(col, seed, "quick", only=only)
-    prefer = next((h for h in ("_transform_ode_from_derivs", "_transform_ode_from_rtransform", "_transform_and_rearrange_to_explicit_ode",
-                               "_rearrange_to_explicit_ode", "_evaluate_coeffs_on_points", "_derivative_transformation_matrix",
-                               "_transform_solution_to_original_domain", "solve_ode_ivp", "solve_ode_bvp") if h in name), None)
     f = _first_failure(col, prefer)
     if f is not None and ":known-" not in f["case_id"]:
         return {"failed": True, "case_id": f["case_id"], "detail": f["detail"], "input": f["input"]}
